@@ -125,6 +125,22 @@ type failMode struct {
 	Corrupt   kind    // answers of this kind carry a wrong pubkey for one cluster validator
 }
 
+// stepPlan is one clock advance: Slots slot durations (1.5, 2.5, ... leave the clock mid-slot). Blocked
+// means the clock moves while the scheduler is still inside scheduleSlot (parked in its schedSlotFunc), i.e.
+// scheduleSlot blocks Run for more than a slot.
+type stepPlan struct {
+	Slots   float64
+	Blocked bool
+}
+
+func (p stepPlan) String() string {
+	if p.Blocked {
+		return fmt.Sprintf("%v(while scheduleSlot is blocked)", p.Slots)
+	}
+
+	return fmt.Sprint(p.Slots)
+}
+
 type scenario struct {
 	Seed     int64
 	SPE      uint64
@@ -139,7 +155,8 @@ type scenario struct {
 	MaxEpoch uint64 // tables exist for epochs 0..MaxEpoch
 	Tables   map[uint64]*epochTable
 	Fail     map[uint64]failMode // by slot
-	Steps    []int               // clock advances in slots (1 = next slot, k>1 = missed ticks)
+	Steps    []stepPlan          // clock advances (1 slot = next tick; more = missed ticks)
+	Foreign  bool                // a foreign user of the duties cache pre-fetches epochs with narrower index lists
 	StartOff time.Duration       // offset of the start instant inside slot S0
 	Reorgs   map[int]uint64      // gate index -> epoch argument of a chain reorg event delivered at that gate
 	Loose    map[kind]bool       // BN ignores the index filter for this duty kind (returns all validators' duties)
@@ -377,15 +394,29 @@ func genScenario(rng *rand.Rand) *scenario {
 
 	// tick plan
 	skipP := []int{0, 6, 15, 30}[rng.Intn(4)]
-	for sl := s.S0; sl <= s.EndSlot+1; {
-		k := 1
+	for pos := float64(s.S0); pos <= float64(s.EndSlot+1); {
+		p := stepPlan{Slots: 1}
 		if rng.Intn(100) < skipP {
-			k = 2 + rng.Intn(int(s.SPE)+2)
+			switch rng.Intn(8) {
+			case 0:
+				p.Slots = 1.5
+			case 1:
+				p.Slots = 2
+			case 2:
+				p.Slots = 2.5
+			case 3:
+				p.Slots = 3.5
+			case 4: // past the next epoch boundary
+				p.Slots = float64(s.SPE) + 0.5
+			default:
+				p.Slots = float64(2 + rng.Intn(int(s.SPE)+2))
+			}
+			p.Blocked = rng.Intn(3) == 0
 		}
-		s.Steps = append(s.Steps, k)
-		sl += uint64(k)
+		s.Steps = append(s.Steps, p)
+		pos += p.Slots
 	}
-	s.Steps = append(s.Steps, 1, 1, 1)
+	s.Steps = append(s.Steps, stepPlan{Slots: 1}, stepPlan{Slots: 1}, stepPlan{Slots: 1})
 	switch rng.Intn(3) {
 	case 0:
 		s.StartOff = 0 // every advance lands exactly on a slot boundary
@@ -411,6 +442,7 @@ func genScenario(rng *rand.Rand) *scenario {
 	s.DutyMode = []string{"cache", "cache", "cache", "cache", "direct"}[rng.Intn(5)]
 	s.HoldP = []float64{0, 0.25, 0.6}[rng.Intn(3)]
 	s.Probe = rng.Intn(3) == 0
+	s.Foreign = s.DutyMode == "cache" && rng.Intn(2) == 0
 
 	return s
 }
@@ -422,9 +454,9 @@ func (s *scenario) makeEarly(rng *rand.Rand, withDelay bool) {
 	s.Early, s.WithDly = true, withDelay
 	s.Steps = nil
 	for sl := s.S0; sl <= s.EndSlot+1; sl++ {
-		s.Steps = append(s.Steps, 1)
+		s.Steps = append(s.Steps, stepPlan{Slots: 1})
 	}
-	s.Steps = append(s.Steps, 1, 1)
+	s.Steps = append(s.Steps, stepPlan{Slots: 1}, stepPlan{Slots: 1})
 	s.StartOff = 0
 	if rng.Intn(2) == 0 {
 		s.StartOff = s.SlotDur / 10
@@ -484,7 +516,7 @@ func (s *scenario) describe() map[string]any {
 	return map[string]any{
 		"slots_per_epoch": s.SPE, "slot_duration": s.SlotDur.String(), "start_slot": s.S0, "end_slot": s.EndSlot,
 		"start_offset_in_slot": s.StartOff.String(), "validators": vals, "bn_failures_by_slot": fails,
-		"advance_steps": s.Steps, "reorg_gates": s.Reorgs, "bn_ignores_index_filter": loose,
+		"advance_steps": fmt.Sprint(s.Steps), "foreign_duties_cache_user": s.Foreign, "reorg_gates": s.Reorgs, "bn_ignores_index_filter": loose,
 		"validator_cache": s.ValMode, "duties_cache": s.DutyMode, "hold_probability": s.HoldP, "class": s.Class,
 		"early_fetch_case": s.Early, "fetch_att_on_block_with_delay": s.WithDly,
 	}
